@@ -1329,32 +1329,35 @@ void rtosc::path_search(const rtosc::Ports& root,
         auto is_less = [](const val_on_2 &p1, const val_on_2 &p2) -> bool {
             return strcmp(p1[0].s, p2[0].s) < 0;
         };
-        std::size_t n_paths_found = pos >> 1;
-        std::sort((ptr_on_2)args, ((ptr_on_2)(args))+n_paths_found, is_less);
+        // the two echoed query strings in front are no (name, metadata) pair
+        const std::size_t query_args = reply_with_query ? 2 : 0;
+        rtosc_arg_t* const paths = args + query_args;
+        std::size_t n_paths_found = (pos - query_args) >> 1;
+        std::sort((ptr_on_2)paths, ((ptr_on_2)(paths))+n_paths_found, is_less);
 
         if (opts == path_search_opts::sorted_and_unique_prefix)
         {
             std::size_t prev_pos = 0;
-            std::size_t strlen_prev = n_paths_found > 1 ? strlen(args[prev_pos].s) : 0;
+            std::size_t strlen_prev = n_paths_found > 1 ? strlen(paths[prev_pos].s) : 0;
             std::size_t unused_paths = 0;
             for(pos = 2; pos < (n_paths_found<<1); ++++pos)
             {
-                assert(args[prev_pos].s); // invariant
+                assert(paths[prev_pos].s); // invariant
 
                 // is the prev path a (real) sub-path of this path?
                 // i.e. the current can be accessed by recursing into the prev?
-                if(strlen_prev < strlen(args[pos].s) &&
-                   0 == strncmp(args[pos].s, args[prev_pos].s, strlen_prev) &&
-                   args[prev_pos].s[strlen_prev-1] == '/')
+                if(strlen_prev < strlen(paths[pos].s) &&
+                   0 == strncmp(paths[pos].s, paths[prev_pos].s, strlen_prev) &&
+                   paths[prev_pos].s[strlen_prev-1] == '/')
                 {
                     // then mark this as unused
-                    args[pos].s = nullptr;
+                    paths[pos].s = nullptr;
                     ++unused_paths;
                 }
                 else
                 {
                     prev_pos = pos;
-                    strlen_prev = strlen(args[prev_pos].s);
+                    strlen_prev = strlen(paths[prev_pos].s);
                 }
             }
 
@@ -1365,10 +1368,10 @@ void rtosc::path_search(const rtosc::Ports& root,
                                                    // is actually already sorted:
                                                    : (strcmp(p1[0].s, p2[0].s) < 0);
             };
-            std::sort((ptr_on_2)args, ((ptr_on_2)(args))+n_paths_found, is_less_2);
+            std::sort((ptr_on_2)paths, ((ptr_on_2)(paths))+n_paths_found, is_less_2);
 
             // cut off unused paths
-            types[(n_paths_found - unused_paths)<<1] = 0;
+            types[query_args + ((n_paths_found - unused_paths)<<1)] = 0;
         }
     }
 }
